@@ -153,6 +153,9 @@ def run_scenario(bins, sc, keep=False):
             watcher = threading.Thread(target=interrupt, daemon=True)
             watcher.start()
         res = fx.monorail(args, env=env, timeout=sc.get("timeout", 150), prlimit=sc.get("prlimit"), allow_signal=bool(sc.get("interrupt")))
+        if res["rc"] == 2 and b"Usage:" in (res.get("stderr") or b"") and not sc.get("expect_usage_error"):
+            # the command line itself was refused: a mistake of the driver, not behaviour of a run
+            raise vlib.ToolError("monorail refused the scenario's command line: %s" % res["stderr"].decode("utf-8", "replace")[:300])
         if watcher is not None:
             watcher.join(timeout=30)
         hooks = []
@@ -498,7 +501,7 @@ def barrier_scenario(size, position, seed=0, shared=False, chatty=False, linked=
         sc["label"] += "-twice"
     if deps_arg:
         # the group is reached as the dependency closure of one named target, with a run-time argument
-        sc["mode"], sc["named"], sc["extra_args"] = "targets_deps", [chain_a[0]], ["--arg", "release"]
+        sc["mode"], sc["named"], sc["extra_args"] = "targets_deps", [chain_a[0]], ["--args", "release"]
         sc["label"] += "-deps-arg"
     if linked:
         # every second member's command file is a symbolic link to an executable kept elsewhere in the repository
